@@ -1201,3 +1201,53 @@ Proof using laws.
   intros raw' _. cbn. lia.
 Qed.
 End AH.
+
+(* ---- non-vacuity: log in with "remember me", end the session, come back with the cookie, copy the
+   old cookie to another browser and present it again (executable crypto instance) ------------------ *)
+Definition nx_cfg : config :=
+  mkConfig [MAuth; MRemember] false false false false false false 3 300 3600 600 3600 (bs "/auth")
+           false false false DELETE GET false [] RespNotFound [] [] true false false.
+Definition nx_n1 : bytes := repeat "a"%byte 32.
+Definition nx_n2 : bytes := repeat "b"%byte 32.
+Definition nx_oracle (fr : list bytes) : oracle := mkOracle 1000 fr [] [] (mkPA false false [] [] [] [] 0).
+Definition nx_login : request :=
+  mkRequest (bs "b1") POST RLogin (bs "/login") [] []
+            [(f_email, hx_pid); (f_password, bs "password1"); (k_rm, v_true)] false.
+Definition nx_app (b : bytes) : request :=
+  mkRequest b GET (RApp false false RespNotFound false false true false) (bs "/app") [] [] [] false.
+Definition nx_raw : bytes := hx_pid ++ ";"%byte :: nx_n1.
+Definition nx_cookie : bytes := b64url_enc nx_raw.
+Definition nx_l1 : list (action * oracle) :=
+  [(ASeed hx_user [], nx_oracle []); (AReq nx_login, nx_oracle [nx_n1]); (ASetJar false (bs "b1") [], nx_oracle [])].
+Definition nx_l2 : list (action * oracle) := [(ASetJar true (bs "b2") [(k_rm, nx_cookie)], nx_oracle [])].
+
+Lemma nx_dec : b64url_dec nx_cookie = Some nx_raw.
+Proof. vm_compute. reflexivity. Qed.
+
+Lemma nx_witness :
+  exists C cfg w0 l1 r1 O1 l2 r2 cookie raw U,
+    crypto_laws C /\ b64url_dec cookie = Some raw /\ rm_parse_pid raw = Some U /\
+    (exists full tf fr l c e, q_route r1 = RApp full tf fr l c true e) /\
+    alookup k_rm (jar_get (q_browser r1) (w_cook (fst (run C cfg w0 l1)))) = Some cookie /\
+    alookup k_uid (jar_get (q_browser r1) (w_sess (fst (run C cfg w0 (l1 ++ [(AReq r1, O1)]))))) = Some U /\
+    alookup k_uid (jar_get (q_browser r1) (w_sess (fst (run C cfg w0 l1)))) <> Some U /\
+    rm_at_most C cookie U (w_st (fst (run C cfg w0 l1))) 1 /\
+    ~ rm_exception C cookie U (AReq r1, O1) /\
+    Forall (fun ao => ~ rm_exception C cookie U ao) l2 /\
+    l2 <> [] /\
+    is_app (q_route r2) = true /\
+    alookup k_rm (jar_get (q_browser r2) (w_cook (fst (run C cfg w0 (l1 ++ (AReq r1, O1) :: l2))))) = Some cookie.
+Proof.
+  exists XC, nx_cfg, empty_world, nx_l1, (nx_app (bs "b1")), (nx_oracle [nx_n2]), nx_l2, (nx_app (bs "b2")),
+         nx_cookie, nx_raw, hx_pid.
+  split; [exact exec_laws|]. split; [exact nx_dec|]. split; [vm_compute; reflexivity|].
+  split; [do 6 eexists; reflexivity|]. split; [vm_compute; reflexivity|]. split; [vm_compute; reflexivity|].
+  split; [vm_compute; discriminate|]. split.
+  { intros raw Dc. rewrite nx_dec in Dc. inversion Dc; subst raw. vm_compute. lia. }
+  split.
+  { intros (raw & Dc & Hr). rewrite nx_dec in Dc. inversion Dc; subst raw. cbn [fst snd rm_reissue] in Hr.
+    destruct Hr as [[Hr|[]]|Hr]; vm_compute in Hr; discriminate Hr. }
+  split.
+  { repeat constructor. intros (raw & _ & Hr). exact Hr. }
+  split; [discriminate|]. split; [reflexivity|]. vm_compute. reflexivity.
+Qed.
